@@ -1188,10 +1188,12 @@ impl Check for C13 {
                 stats.samples.push(s);
             }
         }
-        found
-            .into_iter()
-            .map(|(signature, (_, _, detail, case_json))| Found { signature, detail, case_json })
-            .collect()
+        // one root cause shows up under several operator-class pairs: report the four smallest reproductions
+        let mut all: Vec<(String, (usize, String, String, Value))> = found.into_iter().collect();
+        all.sort_by(|a, b| (a.1 .0, &a.1 .1, &a.0).cmp(&(b.1 .0, &b.1 .1, &b.0)));
+        stats.extra.insert("exhaustive_failing_signatures".into(), json!(all.len()));
+        all.truncate(4);
+        all.into_iter().map(|(signature, (_, _, detail, case_json))| Found { signature, detail, case_json }).collect()
     }
 }
 
